@@ -186,7 +186,7 @@ class Oracle:
         bases = [u for u in Unit._known.values() if u.factors == {u: 1}]
         for u in bases:
             ex = u.dimension.exponents
-            if sum(abs(e) for e in ex) == 1 and u.dimension not in seen_dims \
+            if sum(abs(e) for e in ex) == 1 and max(ex) == 1 and u.dimension not in seen_dims \
                     and u not in self.offset_units:
                 seen_dims.add(u.dimension)
                 anchor(u)
